@@ -713,6 +713,10 @@ def _tstr(t):
         return '[%s; %s]' % (_tstr(t[1]), t[2])
     if k == 'lam':
         return '|%s| %s' % (', '.join(t[2]), _tstr(t[3]))
+    if k == 'resid':
+        return 'residual(%s)' % _tstr(t[1])
+    if k == 'upd':
+        return '%s\'' % _tstr(t[1])
     if k in ('satsub', 'rlen'):
         return '%s(%s)' % (k, ', '.join(_tstr(x) for x in t[1:]))
     return str(t)
